@@ -202,15 +202,17 @@ def check(ctx):
     global _IMPORTING_C03
     if not _IMPORTING_C03 and getattr(ctx, "pid", None) == "C10":            # (C03 itself re-uses C10's bookkeeping rules through C17: do not recurse)
         _IMPORTING_C03 = True
+        sub3 = util.fresh_ctx(ctx, "C03")
         try:
-            sub3 = util.fresh_ctx(ctx, "C03")
             importlib.import_module("props.C03").check(sub3)
+        except F.InfraError as e_:
+            ctx.defer_infra(str(e_))
         finally:
             _IMPORTING_C03 = False
         for o in sub3.obs:
             if o["rule"] == "R03.3" and "walks-only-the-live-list" in o["key"]:
                 ctx.ob("R10.8", o["key"], o["ok"], o["site"], o["detail"], o["nontrivial"])
-        ctx.floor("R10.8", 5)
+        if not getattr(ctx, "deferred_infra", None): ctx.floor("R10.8", 5)
     # ------------------------------------------------------------------ R10.7 cursor discipline of the rebuild: no gap at the front, no stale tail
     S.check_rebuild_cursor(ctx, "R10.7")
     ctx.floor("R10.7", 2)
